@@ -216,14 +216,28 @@ func Supervise(self string, chk *Check, tier string) int {
 	defer os.RemoveAll(tmp)
 
 	// shard order is permuted by the seed (affects only which worker starts first)
-	results := make([]*workerResult, n)
+	// build variants (e.g. "-purego"): the whole enumeration is run once per variant binary, n shards each
+	variants := chk.Variants
+	if len(variants) == 0 {
+		variants = []string{""}
+	}
+	results := make([]*workerResult, n*len(variants))
+	selfOf := make([]string, n*len(variants))
 	var wg sync.WaitGroup
-	for i := 0; i < n; i++ {
-		wg.Add(1)
-		go func(i int) {
-			defer wg.Done()
-			results[i] = spawn(self, chk, tier, seed, i, n, filepath.Join(tmp, fmt.Sprintf("w%d.json", i)), stall)
-		}(i)
+	for vi, variant := range variants {
+		bin := self + variant
+		if _, err := os.Stat(bin); err != nil {
+			fmt.Fprintf(os.Stderr, "variant binary %s missing: %v\n", bin, err)
+			return 2
+		}
+		for i := 0; i < n; i++ {
+			wg.Add(1)
+			go func(vi, i int, bin, variant string) {
+				defer wg.Done()
+				selfOf[vi*n+i] = bin
+				results[vi*n+i] = spawn(bin, chk, tier, seed, i, n, filepath.Join(tmp, fmt.Sprintf("w%d_%d.json", vi, i)), stall)
+			}(vi, i, bin, variant)
+		}
 	}
 	wg.Wait()
 
@@ -299,7 +313,7 @@ func Supervise(self string, chk *Check, tier string) int {
 			kind = crashKind(r.stderr)
 		}
 		fmt.Fprintf(os.Stderr, "[supervisor] worker %d %s (%s); re-running shard in trace mode to pin the case\n", r.shard, kind, r.exitInfo)
-		tr := spawn(self, chk, tier, seed, r.shard, n, filepath.Join(tmp, fmt.Sprintf("t%d.json", r.shard)), stall, "--trace")
+		tr := spawn(selfFor(selfOf, results, r, self), chk, tier, seed, r.shard, n, filepath.Join(tmp, fmt.Sprintf("t%d.json", r.shard)), stall, "--trace")
 		caseIdx := int64(-1)
 		if m := traceRe.FindAllStringSubmatch(tr.stderr, -1); len(m) > 0 {
 			caseIdx, _ = strconv.ParseInt(m[len(m)-1][1], 10, 64)
@@ -317,7 +331,7 @@ func Supervise(self string, chk *Check, tier string) int {
 		// confirm in isolation: run only that case
 		confirmed := false
 		if caseIdx >= 0 {
-			one := spawn(self, chk, tier, seed, r.shard, n, filepath.Join(tmp, fmt.Sprintf("o%d.json", r.shard)), stall, "--only", strconv.FormatInt(caseIdx, 10))
+			one := spawn(selfFor(selfOf, results, r, self), chk, tier, seed, r.shard, n, filepath.Join(tmp, fmt.Sprintf("o%d.json", r.shard)), stall, "--only", strconv.FormatInt(caseIdx, 10))
 			confirmed = one.out == nil
 			if !confirmed && one.out != nil {
 				for _, v := range one.out.Violations {
@@ -408,7 +422,10 @@ func Supervise(self string, chk *Check, tier string) int {
 	cov["samples"] = samples
 	cov["exhaustive"] = !capped && infra == 0
 	cov["enumeration_indices"] = cases
-	cov["workers"] = n
+	cov["workers"] = n * len(variants)
+	if len(variants) > 1 {
+		cov["build_variants"] = variants
+	}
 	if len(notes) > 0 {
 		cov["notes"] = notes
 	}
@@ -452,6 +469,15 @@ func Supervise(self string, chk *Check, tier string) int {
 		return 2
 	}
 	return 0
+}
+
+func selfFor(selfOf []string, results []*workerResult, r *workerResult, def string) string {
+	for i, x := range results {
+		if x == r && selfOf[i] != "" {
+			return selfOf[i]
+		}
+	}
+	return def
 }
 
 func lastLines(s string, n int) []string {
